@@ -50,8 +50,9 @@ def mutants(prog):
         ("ic units convention", L, "inverse_consistency_loss", "align_corners=grid.align_corners(), channels_last=True", "channels_last=True", "T17.inverse-consistency"),
         ("ic world spacing", L, "inverse_consistency_loss", "error *= grid.spacing().to(error)", "error *= 1", "T17.inverse-consistency"),
         ("ic forward convention", L, "inverse_consistency_loss", "y = transform_points(inverse, y, align_corners=grid.align_corners())", "y = transform_points(forward, y, align_corners=grid.align_corners())", "T17.inverse-consistency"),
+        ("grad_loss: power after reduction", L, "grad_loss", "if q == 0:\n        loss.abs_()\n    elif q != 1:\n        loss.pow_(q)\n    loss = reduce_loss(loss, reduction)", "loss = reduce_loss(loss, reduction)\n    if q == 0:\n        loss.abs_()\n    elif q != 1:\n        loss.pow_(q)", "T17.nullspace"),
+        ("fd spacing of the first item", "deepali.core.image", "spatial_derivatives", "fd_spacing = spacing[:, sdim]", "fd_spacing = spacing[0, sdim]", "T5.batch-spacing"),
     ]
     for name, mod, fn, old, new, expect in specs:
         ov = source_sub(prog, mod, fn, old, new)
-        if ov is not None:
-            yield (name, ov, expect)
+        yield (name if ov is not None else name + " [spec does not apply]", ov, expect)
